@@ -85,5 +85,25 @@ fn main() {
     for short in [vec![], vec![2u8, 0, 1, b'x'], { let mut b = vec![2u8, 0, 1, b'x', 0]; b.extend_from_slice(&1.0f64.to_be_bytes()); b }] {
         if let Ok(m) = dec(&payload(20, short.clone())) { fail(format!("to_rtmp_message(type 20, {:?}) accepted a command with fewer than three values: {:?}", short, m)); }
     }
+    // richer AMF0 bodies, bytes written by hand from AMF0 sections 2.2-2.12: empty string 02 00 00, strict array 0A + u32 count,
+    // object 03 + (u16 name, value)* + 00 00 09, undefined 06, ECMA array 08 + u32 count + pairs + 00 00 09
+    let mut props = std::collections::HashMap::new(); props.insert("k".to_string(), Amf0Value::Number(1.0));
+    let rich = vec![Amf0Value::Utf8String(String::new()), Amf0Value::StrictArray(vec![Amf0Value::Null, Amf0Value::Boolean(true)]), Amf0Value::Object(props.clone()), Amf0Value::Undefined];
+    let mut rb = vec![2u8, 0, 0]; rb.extend_from_slice(&[0x0A, 0, 0, 0, 2, 5, 1, 1]);
+    rb.extend_from_slice(&[3, 0, 1, b'k', 0]); rb.extend_from_slice(&1.0f64.to_be_bytes()); rb.extend_from_slice(&[0, 0, 9]); rb.push(6);
+    expect_layout(RtmpMessage::Amf0Data { values: rich.clone() }, 18, rb.clone());
+    let mut cb = vec![2u8, 0, 0]; cb.push(0); cb.extend_from_slice(&0.0f64.to_be_bytes());
+    cb.extend_from_slice(&[3, 0, 1, b'k', 0]); cb.extend_from_slice(&1.0f64.to_be_bytes()); cb.extend_from_slice(&[0, 0, 9]); cb.extend_from_slice(&rb);
+    expect_layout(RtmpMessage::Amf0Command { command_name: String::new(), transaction_id: 0.0, command_object: Amf0Value::Object(props.clone()), additional_arguments: rich.clone() }, 20, cb);
+    let mut np = std::collections::HashMap::new(); np.insert("k".to_string(), Amf0Value::Null);
+    match dec(&payload(18, vec![8, 0, 0, 0, 1, 0, 1, b'k', 5, 0, 0, 9])) {
+        Ok(m) => if m != (RtmpMessage::Amf0Data { values: vec![Amf0Value::Object(np.clone())] }) { fail(format!("to_rtmp_message(type 18, ECMA array {{k: null}}) gave {:?}", m)) },
+        Err(e) => fail(format!("to_rtmp_message(type 18, ECMA array {{k: null}}) failed: {}", e)) }
+    // termination on lying counts: a strict array announcing 2^32-1 elements with none present must return promptly (Ok or Err)
+    {
+        let (tx, rx) = std::sync::mpsc::channel();
+        std::thread::spawn(move || { let mut b = vec![]; for _ in 0..3 { b.extend_from_slice(&[0x0A, 0xFF, 0xFF, 0xFF, 0xFF]); } let _ = dec(&payload(18, b)); let _ = tx.send(()); });
+        if rx.recv_timeout(std::time::Duration::from_secs(20)).is_err() { fail("to_rtmp_message(type 18, three nested strict arrays announcing 2^32-1 elements, no elements present) did not return within 20 s".into()); }
+    }
     println!("NONE");
 }
